@@ -161,6 +161,23 @@ fn exhaustive_tail(name: &str, depth: usize, tail_space: u64, tail: impl Fn(u64,
     }
 }
 
+/// Two further history shapes shared by the book-level checks: *deep queues* (most limit orders rest at
+/// one of two prices per side, so queues of 8+ orders build up and are traded through) and *long
+/// histories* (hundreds of orders in one book, ids beyond 255).
+fn extra_shapes(parts: &mut Vec<Part<Case>>, base: GenCfg, tier: Tier, w_modify: u32) {
+    let mut c = base.clone();
+    c.narrow = true;
+    c.w_modify = w_modify;
+    c.max_len = tier.pick(90, 300);
+    c.w_cancel = 6;
+    parts.push(random_part("random-deep-queues", c, tier.pick(60_000, 1_200_000)));
+    let mut c = base;
+    c.w_modify = w_modify;
+    c.max_len = tier.pick(1_200, 3_000);
+    c.w_cancel = 8;
+    parts.push(random_part("random-long-histories", c, tier.pick(1_500, 30_000)));
+}
+
 fn grid_prices() -> [u32; 3] {
     [(MID - 1) * TICK, MID * TICK, (MID + 1) * TICK]
 }
@@ -182,6 +199,7 @@ pub fn parts(id: &'static str, tier: Tier) -> Vec<Part<Case>> {
             parts.push(random_part("random-dense", c.clone(), tier.pick(150_000, 3_000_000)));
             c.wide = true;
             parts.push(random_part("random-wide", c, tier.pick(80_000, 2_000_000)));
+            extra_shapes(&mut parts, GenCfg::base(len), tier, 4);
         }
         "C02" | "C03" => {
             parts.push(exhaustive_core("exhaustive-core", tier.pick(4, 5), &ADV01, false));
@@ -208,7 +226,9 @@ pub fn parts(id: &'static str, tier: Tier) -> Vec<Part<Case>> {
             c.start_off_pct = 10;
             parts.push(random_part("random-dense", c.clone(), tier.pick(150_000, 4_000_000)));
             c.wide = true;
-            parts.push(random_part("random-wide", c, tier.pick(80_000, 2_000_000)));
+            parts.push(random_part("random-wide", c.clone(), tier.pick(80_000, 2_000_000)));
+            c.wide = false;
+            extra_shapes(&mut parts, c, tier, 14);
         }
         "C04" => {
             // every redundant request on every order after every depth<=3 core sequence
@@ -292,7 +312,9 @@ pub fn parts(id: &'static str, tier: Tier) -> Vec<Part<Case>> {
             c.w_advance = 8;
             parts.push(random_part("random-dense-ties", c.clone(), tier.pick(120_000, 2_500_000)));
             c.wide = true;
-            parts.push(random_part("random-wide-ties", c, tier.pick(40_000, 1_000_000)));
+            parts.push(random_part("random-wide-ties", c.clone(), tier.pick(40_000, 1_000_000)));
+            c.wide = false;
+            extra_shapes(&mut parts, c, tier, 14);
         }
         "C06" => {
             let prices = grid_prices();
@@ -340,7 +362,9 @@ pub fn parts(id: &'static str, tier: Tier) -> Vec<Part<Case>> {
             c.w_event = 12;
             parts.push(random_part("random-dense-modify", c.clone(), tier.pick(120_000, 2_000_000)));
             c.wide = true;
-            parts.push(random_part("random-wide-modify", c, tier.pick(50_000, 1_000_000)));
+            parts.push(random_part("random-wide-modify", c.clone(), tier.pick(50_000, 1_000_000)));
+            c.wide = false;
+            extra_shapes(&mut parts, c, tier, 30);
         }
         "C07" => {
             let d = 3usize;
@@ -373,7 +397,9 @@ pub fn parts(id: &'static str, tier: Tier) -> Vec<Part<Case>> {
             c.start_off_pct = 10;
             parts.push(random_part("random-dense-reload", c.clone(), tier.pick(80_000, 1_500_000)));
             c.wide = true;
-            parts.push(random_part("random-wide-reload", c, tier.pick(30_000, 600_000)));
+            parts.push(random_part("random-wide-reload", c.clone(), tier.pick(30_000, 600_000)));
+            c.wide = false;
+            extra_shapes(&mut parts, c, tier, 12);
         }
         "C12" => {
             // every off-grid request after every depth-<=2 core: creations (create / create-and-place, both sides,
